@@ -23,7 +23,9 @@ pub struct LoadCase { pub hash_seed: u64, pub pool: usize, pub rayon_seed: u64, 
     /// an older snapshot of the database's own dictionary is merged back (Dictionary::merge, a no-op for the stored data) before the load
     #[serde(default)] pub merge_snapshot: bool,
     /// the store held this very document before (loaded as N-Triples) and its default graph was cleared (1) or everything dropped graph by graph (2)
-    #[serde(default)] pub reload_after_clear: u8 }
+    #[serde(default)] pub reload_after_clear: u8,
+    /// RDF/XML only: while the loader threads run, a stalled-node thread lets simulated time jump this many times by 300 ms
+    #[serde(default)] pub xml_stalls: u8 }
 pub struct C13;
 
 /// escaped-literal families: backslash and quote in the middle, value ending in a backslash, value ending in a quote
@@ -124,7 +126,7 @@ fn supported(fmt: &Fmt, doc: &Doc) -> bool {
         _ => true,
     }
 }
-pub fn load(db: &mut SparqlDatabase, fmt: &Fmt, text: &str, shuttle_seed: u64, ctx: &mut Ctx) -> Result<(), Violation> {
+pub fn load(db: &mut SparqlDatabase, fmt: &Fmt, text: &str, shuttle_seed: u64, stalls: u8, ctx: &mut Ctx) -> Result<(), Violation> {
     match fmt {
         Fmt::NTriples => db.parse_ntriples_and_add(text),
         Fmt::NQuads => db.parse_nquads_and_add(text),
@@ -137,8 +139,17 @@ pub fn load(db: &mut SparqlDatabase, fmt: &Fmt, text: &str, shuttle_seed: u64, c
             let sched = shuttle::scheduler::RandomScheduler::new_from_seed(shuttle_seed, 1);
             let mut cfg = shuttle::Config::new(); cfg.stack_size = 1 << 20; cfg.max_steps = shuttle::MaxSteps::FailAfter(2_000_000); cfg.failure_persistence = shuttle::FailurePersistence::None;
             let runner = shuttle::Runner::new(sched, cfg);
-            let r = guard(|| runner.run(move || { kolibrie_verif_rt::set_sim(true); let mut d = c2.lock().unwrap().take().unwrap(); d.parse_rdf(&text); *c2.lock().unwrap() = Some(d); }));
+            let r = guard(|| runner.run(move || {
+                kolibrie_verif_rt::set_sim(true);
+                // a stalled machine: simulated time jumps while the parser and its workers are at arbitrary points (the loader has no
+                // business with the clock; a time-out anywhere in it would now fire)
+                let stall = if stalls > 0 { kolibrie_verif_rt::clock::install(1_000_000); Some(kolibrie_verif_rt::thread::spawn(move || { for _ in 0..stalls { kolibrie_verif_rt::thread::sleep(std::time::Duration::ZERO); kolibrie_verif_rt::clock::advance(300_000_000); } })) } else { None };
+                let mut d = c2.lock().unwrap().take().unwrap(); d.parse_rdf(&text); *c2.lock().unwrap() = Some(d);
+                if let Some(h) = stall { let _ = h.join(); kolibrie_verif_rt::clock::uninstall(); }
+            }));
+            kolibrie_verif_rt::clock::uninstall();
             kolibrie_verif_rt::set_sim(false);
+            if stalls > 0 { ctx.hit("fault.clock_jumps_while_xml_workers_wait"); }
             match r { Ok(_) => { *db = cell.lock().unwrap().take().unwrap(); ctx.hit("fault.shuttle_scheduled_xml_workers"); } Err((loc, msg)) => return Err(Violation::new("loader-deadlock-or-panic", format!("parse_rdf under the simulated scheduler failed at {}: {}", loc, msg.chars().take(300).collect::<String>()))) }
         }
     }
@@ -148,7 +159,7 @@ pub fn load(db: &mut SparqlDatabase, fmt: &Fmt, text: &str, shuttle_seed: u64, c
 impl Prop for C13 {
     type Case = LoadCase;
     fn id(&self) -> &'static str { "C13" }
-    fn expected_counters(&self) -> Vec<&'static str> { vec!["fault.shuttle_scheduled_xml_workers", "probe.document_loaded_twice", "probe.document_spans_several_loader_chunks", "probe.load_into_populated_store", "probe.database_binds_the_documents_prefixes_differently", "probe.schema_property_elements", "probe.older_dictionary_snapshot_merged_before_load", "probe.same_triples_loaded_and_cleared_before", "fault.pool_split_into_several_jobs", "fault.jobs_run_out_of_index_order"] }
+    fn expected_counters(&self) -> Vec<&'static str> { vec!["fault.shuttle_scheduled_xml_workers", "probe.document_loaded_twice", "probe.document_spans_several_loader_chunks", "probe.load_into_populated_store", "probe.database_binds_the_documents_prefixes_differently", "probe.schema_property_elements", "probe.older_dictionary_snapshot_merged_before_load", "probe.same_triples_loaded_and_cleared_before", "fault.clock_jumps_while_xml_workers_wait", "fault.pool_split_into_several_jobs", "fault.jobs_run_out_of_index_order"] }
     fn budget(&self, tier: Tier) -> Budget { match tier { Tier::Quick => Budget { runs: 4000, wall_s: 60, recheck: 20 }, Tier::Thorough => Budget { runs: 300_000, wall_s: 1000, recheck: 60 } } }
     fn hash_seed(&self, c: &LoadCase) -> u64 { c.hash_seed }
     fn gen(&self, seed: u64, _i: u64, _t: Tier) -> LoadCase {
@@ -167,7 +178,7 @@ impl Prop for C13 {
         let all = [Fmt::NTriples, Fmt::NQuads, Fmt::Turtle, Fmt::N3, Fmt::RdfXml];
         let formats: Vec<Fmt> = if n >= 8000 { vec![Fmt::RdfXml, r.pick(&all).clone()] } else if big { vec![r.pick(&all).clone(), r.pick(&all).clone()] } else { all.to_vec() };
         LoadCase { hash_seed: Rng::sub(seed, "hash").next(), pool: *cfg.pick(&[1, 2, 3, 4, 8, 16]), rayon_seed: Rng::sub(seed, "rayon").next(), cpus: 1 + cfg.below(16) as i64, shuttle_seed: Rng::sub(seed, "shuttle").next(),
-            prior, prior_terms: if prior_kind == 2 { r.below(40) as u32 } else { 0 }, doc: Doc { triples, seed: r.next() }, formats, twice: cfg.chance(1, 4), comments: cfg.chance(1, 2), n3_literals: cfg.chance(1, 10), nq_graphs: cfg.chance(1, 2), lists: cfg.chance(1, 3), prior_prefix_clash: cfg.chance(1, 3), merge_snapshot: cfg.chance(1, 4), reload_after_clear: if cfg.chance(1, 5) { 1 + cfg.below(2) as u8 } else { 0 } }
+            prior, prior_terms: if prior_kind == 2 { r.below(40) as u32 } else { 0 }, doc: Doc { triples, seed: r.next() }, formats, twice: cfg.chance(1, 4), comments: cfg.chance(1, 2), n3_literals: cfg.chance(1, 10), nq_graphs: cfg.chance(1, 2), lists: cfg.chance(1, 3), prior_prefix_clash: cfg.chance(1, 3), merge_snapshot: cfg.chance(1, 4), reload_after_clear: if cfg.chance(1, 5) { 1 + cfg.below(2) as u8 } else { 0 }, xml_stalls: if cfg.chance(1, 2) { 1 + cfg.below(6) as u8 } else { 0 } }
     }
     fn exec(&self, c: &LoadCase, ctx: &mut Ctx) -> Option<Violation> {
         rayon::sim_configure(c.rayon_seed, c.pool);
@@ -207,8 +218,8 @@ impl Prop for C13 {
             let want_doc = if *fmt == Fmt::NQuads && c.nq_graphs { expected_nq(doc, true) } else { want_doc };
             let text = render(doc, fmt, c.comments, c.nq_graphs, c.lists);
             let lines = text.lines().count();
-            if let Err(v) = load(&mut db, fmt, &text, c.shuttle_seed, ctx) { return fin(Some(v)); }
-            if c.twice { if let Err(v) = load(&mut db, fmt, &text, c.shuttle_seed ^ 1, ctx) { return fin(Some(v)); } ctx.hit("probe.document_loaded_twice"); }
+            if let Err(v) = load(&mut db, fmt, &text, c.shuttle_seed, c.xml_stalls, ctx) { return fin(Some(v)); }
+            if c.twice { if let Err(v) = load(&mut db, fmt, &text, c.shuttle_seed ^ 1, c.xml_stalls, ctx) { return fin(Some(v)); } ctx.hit("probe.document_loaded_twice"); }
             let (after, graphs_after) = match lexical(&db) { Ok(x) => x, Err(e) => return fin(Some(Violation::new("dataset-undecodable", format!("after loading {:?} ({} lines): {}", fmt, lines, e)))) };
             let want: BTreeSet<Q> = before.union(&want_doc).cloned().collect();
             ev!(ctx.log, "{:?} lines={} prior={} after={} want={}", fmt, lines, before.len(), after.len(), want.len());
@@ -249,6 +260,7 @@ impl Prop for C13 {
         if c.prior_prefix_clash { out.push(LoadCase { prior_prefix_clash: false, ..c.clone() }); }
         if c.merge_snapshot { out.push(LoadCase { merge_snapshot: false, ..c.clone() }); }
         if c.reload_after_clear > 0 { out.push(LoadCase { reload_after_clear: 0, ..c.clone() }); }
+        if c.xml_stalls > 0 { out.push(LoadCase { xml_stalls: 0, ..c.clone() }); }
         if c.doc.triples.iter().any(|(_, p, _)| *p >= 100) { let t = c.doc.triples.iter().map(|(s, p, o)| (s.clone(), if *p >= 100 { *p - 100 } else { *p }, o.clone())).collect(); out.push(LoadCase { doc: Doc { triples: t, seed: c.doc.seed }, ..c.clone() }); }
         if c.pool != 1 { out.push(LoadCase { pool: 1, rayon_seed: 0, ..c.clone() }); }
         if c.cpus != 1 { out.push(LoadCase { cpus: 1, ..c.clone() }); }
